@@ -28,6 +28,8 @@ type tokRef struct {
 	node ast.Node
 	tok  string // token spelling
 	idx  int    // preorder index of node
+	decl int    // preorder index of the innermost enclosing declaration / list element / call argument / import spec
+	endl int    // line on which the token ends
 }
 
 // name is "<preorder index of the owning node>.<token>".
@@ -37,6 +39,8 @@ type placer struct {
 	toks   []tokRef
 	index  map[ast.Node]int
 	cur    int                       // preorder index of the node being visited
+	decls  []int                     // stack of enclosing declaration-like nodes (preorder indexes)
+	elems  map[ast.Node]bool         // list elements and call arguments
 	inEll  map[*ast.CommentGroup]int // comments carried by a synthesised `...` -> index of the owning struct/file
 	chains map[*ast.StructLit]bool
 }
@@ -45,11 +49,32 @@ func (p *placer) add(n ast.Node, pos token.Pos, name string) {
 	if !pos.HasAbsPos() {
 		return
 	}
-	p.toks = append(p.toks, tokRef{pos.Offset(), n, name, p.cur})
+	d := 0
+	if len(p.decls) > 0 {
+		d = p.decls[len(p.decls)-1]
+	}
+	endl := pos.Line()
+	if b, ok := n.(*ast.BasicLit); ok {
+		endl += strings.Count(b.Value, "\n")
+	}
+	p.toks = append(p.toks, tokRef{pos.Offset(), n, name, p.cur, d, endl})
+}
+
+// declLike: the units between which a comment must not move: declarations,
+// list elements, call arguments, import specs.
+func (p *placer) declLike(n ast.Node) bool {
+	switch n.(type) {
+	case *ast.Field, *ast.EmbedDecl, *ast.Comprehension, *ast.LetClause, *ast.Attribute,
+		*ast.ImportDecl, *ast.ImportSpec, *ast.Package, *ast.BadDecl:
+		return true
+	case *ast.Ellipsis:
+		return true
+	}
+	return p.elems[n]
 }
 
 func newPlacer(f *ast.File, synth map[*ast.Ellipsis]ast.Node) *placer {
-	p := &placer{index: map[ast.Node]int{}, inEll: map[*ast.CommentGroup]int{}, chains: map[*ast.StructLit]bool{}}
+	p := &placer{index: map[ast.Node]int{}, inEll: map[*ast.CommentGroup]int{}, chains: map[*ast.StructLit]bool{}, elems: map[ast.Node]bool{}}
 	owners := map[ast.Node]bool{}
 	for _, o := range synth {
 		owners[o] = true
@@ -64,6 +89,19 @@ func newPlacer(f *ast.File, synth map[*ast.Ellipsis]ast.Node) *placer {
 		p.cur = i
 		if owners[n] {
 			p.index[n] = i
+		}
+		switch x := n.(type) {
+		case *ast.ListLit:
+			for _, e := range x.Elts {
+				p.elems[e] = true
+			}
+		case *ast.CallExpr:
+			for _, e := range x.Args {
+				p.elems[e] = true
+			}
+		}
+		if p.declLike(n) {
+			p.decls = append(p.decls, i)
 		}
 		if fl, ok := n.(*ast.Field); ok {
 			if s, ok := fl.Value.(*ast.StructLit); ok && len(s.Elts) == 1 {
@@ -152,7 +190,15 @@ func newPlacer(f *ast.File, synth map[*ast.Ellipsis]ast.Node) *placer {
 			p.add(x, x.OpPos, "op")
 		}
 		return true
-	}, nil)
+	}, func(n ast.Node) {
+		switch n.(type) {
+		case *ast.CommentGroup, *ast.Comment:
+			return
+		}
+		if p.declLike(n) && len(p.decls) > 0 {
+			p.decls = p.decls[:len(p.decls)-1]
+		}
+	})
 	for e, owner := range synth {
 		for _, cg := range ast.Comments(e) {
 			p.inEll[cg] = p.index[owner]
@@ -261,6 +307,39 @@ func (c placedComment) key() string {
 		fmt.Fprintf(&sb, " line=%v", c.line)
 	}
 	fmt.Fprintf(&sb, " after=%s before=%s", anchorName(c.prev, "BOF"), anchorName(c.next, "EOF"))
+	return sb.String()
+}
+
+// cmtStrict: compare comments by their two neighbouring tokens (true, default) or only by
+// the declaration / list element / call argument they belong to (false; `--cmt decl`,
+// exploratory: the known-class recognisers are tuned for the strict comparison):
+// the property demands that a comment stays attached in the same place; moving it
+// inside the same declaration (e.g. from behind an operator to the end of the line)
+// is tolerated, moving it to another declaration, losing or duplicating it is not.
+var cmtStrict = true
+
+// declKey: text, doc flag, and the unit the comment belongs to: the unit of the
+// preceding token for an end-of-line comment, the tail of the container in front
+// of a closing bracket, otherwise the unit of the following token.
+func (c placedComment) declKey() string {
+	var sb strings.Builder
+	sb.WriteString(c.text)
+	eol := c.prev != nil && c.cg != nil && c.cg.Pos().Line() == c.prev.endl
+	if !eol && !isCloser(c.next) {
+		// own-line comment in front of a declaration: does it document it?
+		fmt.Fprintf(&sb, " doc=%v", c.doc)
+	}
+	switch {
+	case eol:
+		// end-of-line comment: belongs to the unit of the token it follows
+		fmt.Fprintf(&sb, " in=%d", c.prev.decl)
+	case c.next == nil:
+		sb.WriteString(" in=EOF")
+	case isCloser(c.next):
+		fmt.Fprintf(&sb, " tail=%d", c.next.idx)
+	default:
+		fmt.Fprintf(&sb, " in=%d", c.next.decl)
+	}
 	return sb.String()
 }
 
